@@ -52,7 +52,9 @@ def gen_worlds(seed, n):
         if len(ws) >= n - n_plan:
             w = simgen.gen_planner_world(rng, plan[k % len(plan)])
             k += 1
-        elif len(ws) % 4 == 3:
+        elif len(ws) % 12 == 7:
+            w = simgen.gen_clockwork_world(rng)       # batches and profile loading: monitors only (not fed to the machine)
+        elif len(ws) % 3 == 2:
             w = simgen.gen_fuzz_world(rng)
         else:
             w = simgen.gen_world(rng, closed_loop=rng.random() < 0.1)
